@@ -22,8 +22,8 @@ def one(prop):
         rc1, o1 = sh('cargo test --offline -j4 --test demo_seed 2>&1 | tail -25', wt)
         fails_mut = ('test result: FAILED' in o1) or ('error' in o1 and 'test result: ok' not in o1)
         sh('rm -f tests/demo_seed.rs', wt)
-        rc2, o2 = sh('cargo test --workspace --no-fail-fast --offline -j4 2>&1 | grep -E "^test result|FAILED|error(\\[|:)" | head -12', wt)
-        suite_ok = ('FAILED' not in o2) and ('error' not in o2) and o2.count('test result: ok') >= 5
+        rc2, o2 = sh('cargo test --workspace --no-fail-fast --offline -j4 2>&1 | grep -E "^test result|^error" | head -12', wt)
+        suite_ok = ('FAILED' not in o2) and ('\nerror' not in ('\n' + o2)) and o2.count('test result: ok') >= 5
         sh('git checkout -- . && git clean -fdq -e target', wt)
         out[sid] = dict(patch_applies=(rca == 0), demo_passes_unchanged=ok_clean, demo_fails_with_change=fails_mut, suite_passes_with_change=suite_ok,
                         detail=dict(unchanged=o0[-300:], changed=o1[-500:], suite=o2[-400:]))
